@@ -47,6 +47,18 @@ def shapes_for(tier):
         for r in ([0, 2] if tier == "quick" else RES):
             out.append({"groups": [(rp, 2)], "free": [r]})
     out.append({"groups": [(1, 1)], "free": [2], "dup": True})
+    # holey groups: one sibling replaced by an arbitrary finer cell (possibly inside the hole)
+    for rp in ([-1, 0, 1, 2] if tier == "quick" else [-1, 0, 1, 2, 5]):
+        for drop in ((1,) if tier == "quick" else (0, 1, 2)):
+            out.append({"groups": [(rp, 1)], "drop": drop, "free": [rp + 2]})
+            out.append({"groups": [(rp, 1)], "drop": drop})
+    # cascades: must compact over two passes to a single cell
+    for rq in [-1, 0, 1, 2, 5]:
+        out.append({"cascade": [(rq, 1)]})
+    out.append({"cascade": [(2, 3)], "free": [2]})
+    # misaligned runs of consecutive cells
+    for rr, cnt in [(0, 11), (1, 5), (1, 6), (2, 4), (2, 5), (3, 4), (3, 8), (7, 4)]:
+        out.append({"runs": [(rr, cnt)]})
     if tier != "quick":
         for a, b in [(0, 0), (0, 1), (1, 1), (1, 2), (2, 2), (0, 2)]:
             out.append({"groups": [(a, 1), (b, 1)]})
@@ -56,13 +68,18 @@ def shapes_for(tier):
 
 def weight(shape):
     from .c06 import expected_children
-    return sum(expected_children(rp, rp + lv) for rp, lv in shape.get("groups", [])) + 3 ** len(shape.get("free", []))
+    return sum(expected_children(rp, rp + lv) for rp, lv in shape.get("groups", [])) + 3 ** len(shape.get("free", [])) \
+        + 20 * len(shape.get("cascade", [])) + sum(n for r, n in shape.get("runs", []))
 
 
 def name(shape):
-    return "free=%s;groups=%s%s" % ("/".join(map(str, shape.get("free", []))),
-                                    "/".join("%d+%d" % tuple(g) for g in shape.get("groups", [])),
-                                    ";dup" if shape.get("dup") else "")
+    nm = "free=%s;groups=%s%s" % ("/".join(map(str, shape.get("free", []))),
+                                  "/".join("%d+%d" % tuple(g) for g in shape.get("groups", [])),
+                                  ";dup" if shape.get("dup") else "")
+    for key in ("drop", "cascade", "runs"):
+        if shape.get(key) is not None:
+            nm += ";%s=%s" % (key, str(shape[key]).replace(" ", ""))
+    return nm
 
 
 def jobs(tier, seed):
